@@ -38,6 +38,43 @@ fn wire(cfg: &Cfg) -> Wired {
     }
 }
 
+/// reset() on every hand-wired part (what a user who wired them would call)
+fn reset_parts(w: &mut Wired) {
+    use ta::Reset;
+    match w {
+        Wired::Bb(a, b) => {
+            a.reset();
+            b.reset();
+        }
+        Wired::Slow(a, b) => {
+            a.reset();
+            b.reset();
+        }
+        Wired::Atr(a, b) => {
+            a.reset();
+            b.reset();
+        }
+        Wired::Macd(a, b, c) | Wired::Ppo(a, b, c) => {
+            a.reset();
+            b.reset();
+            c.reset();
+        }
+        Wired::Kc(a, b) => {
+            a.reset();
+            b.reset();
+        }
+        Wired::Ce(a, b, c) => {
+            a.reset();
+            b.reset();
+            c.reset();
+        }
+        Wired::Cci(a, b) => {
+            a.reset();
+            b.reset();
+        }
+    }
+}
+
 /// Result of the hand-wired computation for one input: expected components and
 /// per-component absolute tolerances (None = skip this step).
 fn wired_step(w: &mut Wired, cfg: &Cfg, op: &Op, t: usize, m: f64, got: &Out) -> Option<Result<(), String>> {
@@ -188,7 +225,13 @@ fn check_seq_via(cfg: &Cfg, ops: &[Op], via: Option<(usize, Via)>, out: &mut Job
                     s = apply_via(cfg, s, v);
                 }
                 s.reset();
-                w = wire(cfg);
+                // the hand-wired parts are reset with their own reset() (every other time they are rebuilt:
+                // fresh parts = reset parts, C04)
+                if i % 2 == 0 {
+                    reset_parts(&mut w);
+                } else {
+                    w = wire(cfg);
+                }
                 m = 0.0;
                 t = 0;
                 continue;
@@ -327,6 +370,18 @@ pub fn run(ctx: &Ctx) -> CheckResult {
         jobs.push((Cfg::p1(Kind::Atr, n), with_reset(s_ops(&S_POS)), ds));
         jobs.push((Cfg::p3(Kind::Macd, n, n + 2, 2), with_reset(s_ops(&S_POS)), ds));
         jobs.push((Cfg::p3(Kind::Ppo, n + 2, n, 3), with_reset(s_ops(&S_POS)), ds));
+    }
+    // reset streams with one value 10^9 times larger than the others (a side accumulator started by a huge
+    // value and forgotten by reset())
+    {
+        let mut hr = s_ops(&[1.0, 2.0, 4.0, 3.0e9]);
+        hr.push(Op::Reset);
+        for &n in &[2usize, 3, 4, 5] {
+            jobs.push((Cfg::pm(Kind::Bb, n, 2.0), hr.clone(), ds + 1));
+            jobs.push((Cfg::p3(Kind::Macd, n, n + 2, 2), hr.clone(), ds));
+            jobs.push((Cfg::p2(Kind::SlowStoch, n, 2), hr.clone(), ds));
+            jobs.push((Cfg::p1(Kind::Atr, n), hr.clone(), ds));
+        }
     }
     // close-only composites driven with bars whose close is not mid-range (the grid has such bars)
     for &n in &[1usize, 2, 3, 5] {
